@@ -218,7 +218,8 @@ func workerMain() int {
 			seenSig[res.Viol.Sig] = true
 			rec := ViolationRec{Sig: res.Viol.Sig, Detail: res.Viol.Detail, OrigLen: len(res.Tape), RunIndex: idx}
 			min := res
-			if !noShrink {
+			if !noShrink && !strings.Contains(res.Viol.Sig, "/frozen/") {
+				// (a frozen bubble costs seconds of real time per attempt: reported unshrunk)
 				min, rec.ShrinkN = shrink(p, sc, res, thorough, 1500, 25*time.Second)
 			}
 			rec.Desc = min.Desc
